@@ -255,7 +255,7 @@ def oracle_fit(ctx, thorough, forced=None):
     return None, case, reg.stop_reason_
 
 
-def meta_case(ctx):
+def meta_case(ctx, form=None):
     """LmiHinfZpkMeta: the weight handed to the wrapped regressor is the discretised state-space form of the zpk filter
     after the unit conversion; the fitted cascade obeys the gamma_ bound"""
     rng = ctx.rng
@@ -263,24 +263,51 @@ def meta_case(ctx):
     t_step = rng.choice([0.1, 0.5, 1.0])
     kind = rng.choice(['pre', 'post'])
     disc = rng.choice(['bilinear', 'zoh', 'backward_diff'])
-    z_in, p_in, gain = [-1.0 * rng.choice([0.2, 0.5])], [-1.0 * rng.choice([1.0, 2.0])], rng.choice([1.0, 2.0])
-    if units == 'normalized':
-        z_in, p_in = [z_in[0] / 8], [p_in[0] / 8]
+    gain = rng.choice([1.0, 2.0, 0.5])
+    sc = 1 / 8 if units == 'normalized' else 1.0
+    # the documented argument forms: None (no zeros / poles), a scalar, a sequence, an ndarray; zeros AT the origin
+    # (high-pass weights, the documented example uses zeros=-0), repeated and complex-conjugate values
+    forms = [
+        ([-0.2], [-1.0]), ([-0.5], [-2.0]), (-0.5, -2.0), (None, -1.0), (None, [-1.0, -2.0]), ([], [-1.0]),
+        (0, -1.0), (-0.0, -2.0), ([0.0], [-1.0]), ([0, 0], [-1.0, -2.0]), ([0.0, -0.5], [-1.0, -2.0]),
+        (np.array([-0.5]), np.array([-1.0, -2.0])), (np.array([0.0]), np.array([-2.0])),
+        ([-0.25 + 0.5j, -0.25 - 0.5j], [-1.0 + 1.0j, -1.0 - 1.0j]), (0.0, [-0.5 + 1.0j, -0.5 - 1.0j]),
+    ]
+    zp = forms[form % len(forms)] if form is not None else rng.choice(forms)
+
+    def scaled(v):
+        if v is None:
+            return None
+        if isinstance(v, np.ndarray):
+            return v * sc
+        if isinstance(v, list):
+            return [x * sc for x in v]
+        return v * sc
+    z_in, p_in = scaled(zp[0]), scaled(zp[1])
+
+    def as_list(v):          # independent reading of the documented forms
+        if v is None:
+            return []
+        if isinstance(v, (list, tuple, np.ndarray)):
+            return [complex(x) for x in v]
+        return [complex(v)]
+    z_ref, p_ref = as_list(z_in), as_list(p_in)
     X, kw, _, _ = lc.lin_data(rng, 2, 1, radius=0.7, noise=0.02)
     inner = lmi.LmiEdmdHinfReg(alpha=1, ratio=1, max_iter=2, solver_params=dict(lc.SOLVER))
     est = lmi.LmiHinfZpkMeta(hinf_regressor=inner, type=kind, zeros=z_in, poles=p_in, gain=gain, discretization=disc,
                              t_step=t_step, units=units)
-    tag = {'units': units, 't_step': t_step, 'type': kind, 'discretization': disc}
+    tag = {'units': units, 't_step': t_step, 'type': kind, 'discretization': disc, 'zeros': repr(z_in), 'poles': repr(p_in),
+           'gain': gain}
     try:
         est.fit(X, **kw)
     except Exception as ex:
         return None, tag, 'fit did not complete: ' + type(ex).__name__
     f = {'rad/s': 1.0, 'hz': 2 * np.pi, 'normalized': np.pi / t_step}[units]
-    ss = scipy.signal.ZerosPolesGain(f * np.array(z_in), f * np.array(p_in), gain).to_ss().to_discrete(t_step, disc)
+    ss = scipy.signal.ZerosPolesGain(f * np.array(z_ref), f * np.array(p_ref), gain).to_ss().to_discrete(t_step, disc)
     w = est.hinf_regressor_.weight
     if w[0] != kind or not all(np.allclose(a, b, rtol=1e-12, atol=1e-14) for a, b in zip(w[1:], (ss.A, ss.B, ss.C, ss.D))):
         return ('LmiHinfZpkMeta: the weight handed to the wrapped regressor is not the discretised zpk filter after the unit '
-                f'conversion ({units})', tag, None)
+                f'conversion ({units}; zeros={z_in!r}, poles={p_in!r}, gain={gain})', tag, None)
     if not np.array_equal(est.coef_, est.hinf_regressor_.coef_):
         return 'LmiHinfZpkMeta.coef_ differs from the wrapped regressor', tag, None
     return None, tag, None
@@ -352,9 +379,11 @@ def run(ctx):
         ctx.count('fit:' + case['family'] + '/' + str(case['weight']))
         if why:
             ctx.fail(why, case, {'family': case['family'], 'weight': case['weight']})
-    for i in range(ctx.n(6, 60)):
-        why, tag, note = meta_case(ctx)
+    for i in range(ctx.n(15, 90)):
+        why, tag, note = meta_case(ctx, form=i)      # every argument form in turn, other options at random
         ctx.count('meta:' + tag['units'])
+        if note:
+            ctx.count('meta:' + note)
         ctx.record_case(tag, True)
         if why:
             ctx.fail(why, tag, {'estimator': 'LmiHinfZpkMeta', 'units': tag['units']})
